@@ -84,7 +84,9 @@ func namedBasics() []*Ty {
 		b := basicTy(under)
 		return &Ty{Expr: name, Kind: "nbasic", Comparable: true, Ordered: b.Ordered, Under: under, Flags: flagsOf(b)}
 	}
-	return []*Ty{mk("MyInt", "int"), mk("MyStr", "string"), mk("MyBool", "bool"), mk("MyFloat", "float64")}
+	lv := mk("ext.Level", "int")
+	lv.Flags["ext"] = true
+	return []*Ty{mk("MyInt", "int"), mk("MyStr", "string"), mk("MyBool", "bool"), mk("MyFloat", "float64"), lv}
 }
 
 // fixedDecls is the source of the named types every scenario package declares.
@@ -127,6 +129,16 @@ type priv struct {
 type Fl struct {
 	X float64
 	S []float32
+}
+
+// Two holds same-named types of two same-named imported packages.
+type Two struct {
+	A ext.Pub
+	B ext2.Pub
+	C *ext.Pub
+	D []ext2.Pub
+	E ext.Level
+	F ext.Pt
 }
 
 // UEq and UEqV declare their own, deliberately non-structural, Equal and
@@ -193,6 +205,12 @@ type Cmp struct {
 	a int
 	B string
 }
+
+type Level int
+
+type Pt struct {
+	X, Y int
+}
 `
 
 const ext2Src = `package ext
@@ -224,6 +242,8 @@ func structTys() []*Ty {
 		mk("ext.Priv", false, "ext", "unexported", "extpriv"),
 		mk("ext.Cmp", true, "ext", "unexported", "extpriv"),
 		mk("ext2.Pub", false, "ext2"),
+		mk("ext.Pt", true, "ext"),
+		mk("Two", false, "ext", "ext2"),
 	}
 }
 
